@@ -111,64 +111,82 @@ def judge_message(o):
     return ""
 
 
-def validate_traces(r, files, props, maxfix=6):
+def judge_file(r, path, rows, props, res, maxviol=8):
+    """JudgeOnly: evaluate the property predicates on every logged observation of the file; each rejected case is a
+    VIOLATION (the predicate is false on a real run); the case is removed and the rest judged again"""
+    spans = split_cases(rows)
+    n = 0
+    while rows and n <= maxviol:
+        j = r.tlc("ParsleyTrace", cfg_text=trace_cfg(True, props), workers=1, env={"TRACE": path}, timeout=1700, count=False)
+        if j.ok:
+            return
+        if not j.rejected_line:
+            raise core.Inconclusive("judge run did not finish: %r\n%s" % (j, core.tail(j.out_path, 30)))
+        k0 = min(j.rejected_line, len(rows)) - 1
+        (b, e) = case_of_line(spans, k0)
+        begin = rows[b]
+        if rows[k0].get("ev") == "begin":
+            raise core.Inconclusive("generator claim rejected by the specification (inadmissible / unproductive grammar): %s" % gtext(begin["G"]))
+        msg = judge_message(j)
+        case = {"kind": "parsecase", "G": begin["G"], "w": begin["w"], "B": begin["B"], "adm": begin["adm"],
+                "asks": begin["asks"], "root": begin["root"], "c06": begin.get("c06", False),
+                "key": case_key(begin), "grammar": gtext(begin["G"]), "input": wtext(begin["w"]),
+                "rejected_event": rows[k0], "props": props}
+        if r.violation(case, "%s on grammar [%s] input %r" % (msg or "property predicate false", gtext(begin["G"]), wtext(begin["w"]))):
+            res["violations"] += 1
+        n += 1
+        rows = rows[:b] + rows[e:]
+        spans = split_cases(rows)
+        path = r.path("judge-%d-%d.ndjson" % (r._k, n))
+        core.write_ndjson(path, rows)
+
+
+def validate_traces(r, files, props, maxfix=2):
     """Validate recorded traces of the real code.
-    full run (machine stepped, all predicates of `props`): accepted -> conformance + property hold.
-    rejected: the same file is judged with JudgeOnly (only the property predicates on the logged
-    observations): accepted -> DRIFT for that case, rejected -> VIOLATION for that case.
-    The offending case is removed and the remainder validated again."""
+    Full run (machine stepped + the predicates of `props`): accepted -> conformance and property hold on every event.
+    Rejected: the whole file is judged with JudgeOnly (only the property predicates on the logged observations): every
+    case rejected there is a VIOLATION; a case that only the machine rejects is DRIFT (a behaviour-preserving
+    difference between code and operational model) and is reported as a warning."""
     res = {"accepted_cases": 0, "events": 0, "drift_cases": 0, "violations": 0}
-    jobs = []
-    for fpath in files:
-        jobs.append(dict(module="ParsleyTrace", cfg_text=trace_cfg(False, props), workers=1, env={"TRACE": fpath}, timeout=1700))
+    jobs = [dict(module="ParsleyTrace", cfg_text=trace_cfg(False, props), workers=1, env={"TRACE": f}, timeout=1700) for f in files]
     outs = r.tlc_parallel(jobs) if jobs else []
     for fpath, o in zip(files, outs):
         rows = core.read_ndjson(fpath)
-        spans = split_cases(rows)
-        cur_path, cur_rows, cur_spans, cur_o = fpath, rows, spans, o
-        fixes = 0
+        if o.ok:
+            res["accepted_cases"] += len(split_cases(rows))
+            res["events"] += len(rows)
+            continue
+        if not o.rejected_line:
+            raise core.Inconclusive("trace validation did not finish: %r\n%s" % (o, core.tail(o.out_path, 30)))
+        # 1. the property predicates on everything that was recorded
+        nv = res["violations"]
+        judge_file(r, fpath, rows, props, res)
+        # 2. how far does the machine follow? (drift bookkeeping; bounded number of re-runs)
+        cur_rows, cur_o, fixes = rows, o, 0
         while True:
+            spans = split_cases(cur_rows)
             if cur_o.ok:
-                res["accepted_cases"] += len(cur_spans)
+                res["accepted_cases"] += len(spans)
                 res["events"] += len(cur_rows)
                 break
             if not cur_o.rejected_line:
-                raise core.Inconclusive("trace validation did not finish: %r\n%s" % (cur_o, core.tail(cur_o.out_path, 30)))
+                break
             k0 = min(cur_o.rejected_line, len(cur_rows)) - 1
-            (b, e) = case_of_line(cur_spans, k0)
-            begin = cur_rows[b]
-            if cur_rows[k0].get("ev") == "begin":
-                raise core.Inconclusive("generator claim rejected by the specification (inadmissible / unproductive grammar) at line %d: %s"
-                                        % (k0 + 1, gtext(begin["G"])))
-            # classify: judge only this case
-            one = r.path("judge-%d-%d.ndjson" % (r._k, b))
-            core.write_ndjson(one, cur_rows[b:e])
-            j = r.tlc("ParsleyTrace", cfg_text=trace_cfg(True, props), workers=1, env={"TRACE": one}, timeout=600, count=False)
-            if j.ok:
-                res["drift_cases"] += 1
-                ev = cur_rows[k0]
-                r.drift.append("real trace of grammar [%s] on %r leaves ParsleyMachine at event %d (%s node %s pos %s) but every %s predicate holds on it"
+            (b, e) = case_of_line(spans, k0)
+            begin, ev = cur_rows[b], cur_rows[k0]
+            if ev.get("ev") == "begin":
+                raise core.Inconclusive("generator claim rejected by the specification: %s" % gtext(begin["G"]))
+            res["drift_cases"] += 1
+            if res["violations"] == nv:
+                r.drift.append("real trace of grammar [%s] on %r leaves ParsleyMachine at event %d (%s node %s pos %s) while every %s predicate holds on it"
                                % (gtext(begin["G"]), wtext(begin["w"]), k0 - b, ev.get("ev"), ev.get("n"), ev.get("pos"), "/".join(props)))
-            elif j.rejected_line:
-                msg = judge_message(j)
-                case = {"kind": "parsecase", "G": begin["G"], "w": begin["w"], "B": begin["B"], "adm": begin["adm"],
-                        "asks": begin["asks"], "root": begin["root"], "c06": begin.get("c06", False),
-                        "key": case_key(begin), "grammar": gtext(begin["G"]), "input": wtext(begin["w"]),
-                        "rejected_event": cur_rows[b:e][min(j.rejected_line, e - b) - 1], "props": props}
-                if r.violation(case, "%s on grammar [%s] input %r" % (msg or "property predicate false", gtext(begin["G"]), wtext(begin["w"]))):
-                    res["violations"] += 1
-            else:
-                raise core.Inconclusive("judge run did not finish: %r\n%s" % (j, core.tail(j.out_path, 30)))
-            # continue with the remainder (drop the offending case)
             fixes += 1
             cur_rows = cur_rows[:b] + cur_rows[e:]
-            res["accepted_cases"] += 0
             if not cur_rows or fixes > maxfix:
                 break
-            cur_spans = split_cases(cur_rows)
-            cur_path = r.path("rest-%d-%d.ndjson" % (r._k, fixes))
-            core.write_ndjson(cur_path, cur_rows)
-            cur_o = r.tlc("ParsleyTrace", cfg_text=trace_cfg(False, props), workers=1, env={"TRACE": cur_path}, timeout=1700)
+            path = r.path("rest-%d-%d.ndjson" % (r._k, fixes))
+            core.write_ndjson(path, cur_rows)
+            cur_o = r.tlc("ParsleyTrace", cfg_text=trace_cfg(False, props), workers=1, env={"TRACE": path}, timeout=1700)
     r.traces += res["accepted_cases"]
     return res
 
@@ -177,6 +195,14 @@ def replay_cases(r, cases, tag, props, watch=False, budget=4000, validate=True, 
     """model -> code: run exported cases on the real combinators; then validate the recorded traces"""
     if not cases:
         return None
+    # the harness builds a grammar once and reuses it for consecutive cases with the same grammar: group the cases by
+    # grammar; the inputs of a grammar are run longest-first or shortest-first (state surviving in the parser graph
+    # from one parse to the next must not matter)
+    def gkey(c):
+        k = json.dumps(c["G"], sort_keys=True)
+        desc = (hashlib.sha1(k.encode()).digest()[0] % 2 == 0)
+        return (k, -len(c["w"]) if desc else len(c["w"]), c["w"])
+    cases = sorted(cases, key=gkey)
     chunks = chunks or max(1, min(core.NCPU // 2, len(cases) // 150 + 1))
     files, reps = [], []
     per = (len(cases) + chunks - 1) // chunks
